@@ -148,6 +148,8 @@ def api_observer(got, pred, sp, call, sg, prog, ctx, part):
             # fresh objects for every initial value: derivative expressions are cached per expression object
             objs = progjudge.build_base(ctx)
             parobjs = {c['i']: objs[n + 1] for n, c in enumerate(ctx.base_calls) if c['c'] == 'MkPar'}
+            for pid, (h, k, size) in ctx.parvec.items():
+                parobjs[pid] = progjudge.VecElemSetter(objs[h], k)
             if init is not None:
                 for pid in pids:
                     parobjs[pid].set(float(init))
@@ -186,6 +188,10 @@ def _observe_after_set(got, den, sp, names, vars_, pids, ctx, part, bad):
     D = {name_of(k): v for k, v in sp['D'].items()}
     Hs = {(name_of(k[0]), name_of(k[1])): v for k, v in sp['H'].items()} if isinstance(sp['H'], dict) else {}
     zero = {'k': 'const', 'q': [0, 1]}
+    # the artefacts were built while every parameter held the initial value chosen by the caller (1, 0 or its own);
+    # bring all of them to their declared values first (itself an update after compiling), then vary one at a time
+    for pid in pids:
+        ctx.parobjs[pid].set(float(ctx.pars[pid]))
     for pid in pids:
         old = ctx.pars[pid]
         for new in (old + Fr(3, 4), old - Fr(1, 2), old):
@@ -241,7 +247,9 @@ def run(report, tier):
     validate_traces(report, batch, 'C12 histories', keep=('params_current',))
     from .. import suitetrace
     suitetrace.validate(report, keep=('params_current',))
-    apirun.run_config(report, 'MC_C01', observer=api_observer, report_kinds=(), overrides={'Want': '<-MC_WantH', 'Fns': '<-MC_FnsSmall'})
+    apirun.run_config(report, 'MC_C12', observer=api_observer, report_kinds=())
+    if tier == 'thorough':
+        apirun.run_config(report, 'MC_C01', observer=api_observer, report_kinds=(), overrides={'Want': '<-MC_WantH', 'Fns': '<-MC_FnsSmall'}, tag='C01')
     return report.finish(
         rule='Solve.tla model-checked (C12_NoFrozenParam, C13_SolveFresh: no artefact snapshots a parameter). Histories of the model graph '
              'that contain SetParam and end in a solve of the parameterised objective are replayed; each solve is compared AT THE SOLVER SEAM '
